@@ -43,6 +43,25 @@ let handle (toks : string list) : (string * string * string) option =
            | Ok ((Some v, _), t) -> "V " ^ hex_of v ^ " where=app alias=no ticks=" ^ string_of_int (int_of_nat t)
            | Ok ((None, _), t) -> "NULLPTR ticks=" ^ string_of_int (int_of_nat t)
            | Abort -> "ABORT" | Fault -> "FAULT" | Diverge -> "DIVERGE")
+        | "strsc" | "struc" | "rangec" ->
+          (* the source pointer is a CELL of the window (4 bytes at off): one fetch, then the routine for a pointer held in
+             application memory on that copy *)
+          let total = Z.pow (z_of_int 2) (z_of_int 32) in
+          let woff r = (let o = Z.sub r (Z.sub total (z_of_int w)) in
+                        if Z.leb Z0 o && Z.ltb o (z_of_int w) then Some (ni (int_of_z o)) else None) in
+          let tk t = " ticks=" ^ string_of_int (int_of_nat t) in
+          (match variant with
+           | "strsc" -> fin alloc (vrun sc (cv_string_std_cell woff (ni w) (ni off)) m0 O)
+           | "struc" ->
+             (match vrun sc (cv_string_unique_cell woff (ni w) (ni off)) m0 O with
+              | Ok ((Some v, _), t) -> "V " ^ hex_of v ^ " where=app alias=no" ^ alloc v ^ tk t
+              | Ok ((None, _), t) -> "NULLPTR" ^ tk t
+              | Abort -> "ABORT" | Fault -> "FAULT" | Diverge -> "DIVERGE")
+           | _ ->
+             (match vrun sc (cv_range_cell woff (ni w) (ni a) (ni off) (ni b)) m0 O with
+              | Ok ((Some es, _), t) -> let v = List.concat es in "V " ^ hex_of v ^ " where=app alias=no" ^ alloc v ^ tk t
+              | Ok ((None, _), t) -> "NULLPTR" ^ tk t
+              | Abort -> "ABORT" | Fault -> "FAULT" | Diverge -> "DIVERGE"))
         | "uspc" ->
           let total = Z.pow (z_of_int 2) (z_of_int 32) in
           (match vrun sc (usp_cell total (z_of_int a) (ni off)) m0 O with
